@@ -107,7 +107,9 @@ def run(ctx):
                 if not (np.array_equal(Hkf(np.array([0.0, 0.0])), Hreal) and np.array_equal(Hreal, H0) and np.array_equal(uf, keep)):
                     rep("with float64 bond variables shared between the two constructions, the Bloch Hamiltonian at k=0 differs from the real-space one (or the bonds were modified)"); continue
                 k = rng.uniform(-4, 4, size=2)
+                H0_keep = H0.copy()
                 Hr = Hk(k)
+                Hr_keep = Hr.copy()
                 if trial == 0:
                     import variants
                     for argname, base_arg in (("ujk", u), ("coloring", c), ("J", J), ("k", k)):
@@ -129,6 +131,9 @@ def run(ctx):
                     rep("Bloch Hamiltonian is not Hermitian", k=k.tolist()); continue
                 if not (np.allclose(Hk(k + [2 * np.pi, 0]), Hr, atol=1e-12 * sc, rtol=0) and np.allclose(Hk(k + [0, -2 * np.pi]), Hr, atol=1e-12 * sc, rtol=0)):
                     rep("Bloch Hamiltonian is not 2*pi-periodic", k=k.tolist()); continue
+                # matrices handed out earlier are still what they were (a list [H(k) for k in grid] holds that many different matrices)
+                if not (np.array_equal(H0, H0_keep) and np.array_equal(Hr, Hr_keep)):
+                    rep("a Bloch matrix returned by an earlier call changed when the generated function was called again: [H(k) for k in grid] does not hold the matrices of the grid", k=k.tolist()); continue
                 # ---- union of Bloch spectra vs tiled system
                 for nx, ny in tilings:
                     if n * nx * ny > 400:
